@@ -25,26 +25,23 @@ def cfg_text(max_kinds, max_wrapped, wraps, orders, aliases, tail):
 
 def body(c):
     wraps = ["none", "inline", "typed", "spread"]
-    # ---- mode M
-    if c.quick:
-        mcfg = c.path("MC.cfg")
-        with open(mcfg, "w") as f:
-            f.write(cfg_text(7, 7, wraps, ["fwd"], ["FALSE"], "INVARIANT ModelChecked\n"))
-    else:
-        mcfg = "gql/MC_IntrospectionModes.cfg"
-    m = vlib.run_tlc("gql/IntrospectionModes.tla", mcfg, env={"SCHEMA": SCHEMA}, workers=8, timeout=1200)
-    if m.invariant_violated:
-        raise vlib.ToolError("design-level failure in IntrospectionModes.tla: " + str(m.invariant_violated))
-    c.add_tlc("M IntrospectionModes (ideal model sound, deviations exact on their triggers)", m)
-    # ---- mode G
+    # ---- mode M and mode G.  quick: one TLC run over the quick case space checks the model invariant and prints the
+    # cases; thorough: M over the full space (MC_IntrospectionModes.cfg), then G.
     gcfg = c.path("Gen.cfg")
     with open(gcfg, "w") as f:
         if c.quick:
-            f.write(cfg_text(7, 2, wraps, ["fwd", "rev"], ["FALSE"], "INVARIANT Emit\n"))
+            f.write(cfg_text(7, 1, wraps, ["fwd"], ["FALSE"], "INVARIANT ModelChecked\nINVARIANT Emit\n"))
         else:
             f.write(cfg_text(7, 7, wraps, ["fwd", "rev"], ["FALSE", "TRUE"], "INVARIANT Emit\n"))
+    if not c.quick:
+        m = vlib.run_tlc("gql/IntrospectionModes.tla", "gql/MC_IntrospectionModes.cfg", env={"SCHEMA": SCHEMA}, workers=8, timeout=1800)
+        if m.invariant_violated:
+            raise vlib.ToolError("design-level failure in IntrospectionModes.tla: " + str(m.invariant_violated))
+        c.add_tlc("M IntrospectionModes, full case space (ideal model sound, deviations exact on their triggers)", m)
     g = vlib.run_tlc("gql/IntrospectionModes.tla", gcfg, env={"SCHEMA": SCHEMA}, workers=8, timeout=1800, keep_lines=20, xmx="8g")
-    c.add_tlc("G cases", g)
+    if g.invariant_violated:
+        raise vlib.ToolError("design-level failure in IntrospectionModes.tla: " + str(g.invariant_violated))
+    c.add_tlc("M+G quick case space (model invariant + cases)" if c.quick else "G cases", g)
     rows = sorted(set(t[1] for t in g.tagged("REPLAY")))
     cases = [json.loads(r) for r in rows]
     for i, x in enumerate(cases):
@@ -96,7 +93,7 @@ def body(c):
                      "{__schema, __type, _service{sdl}, _entities, __typename, ordinary, nested} valid for the root (query-only kinds as single "
                      "probes on the other roots) x order {forward, reversed} x wrapper {none, inline fragment, typed inline fragment, named "
                      "fragment}%s: %d cases, all executed; non-trivial = some mode is not Enabled or the document selects __typename; "
-                     "distinct by the case tuple" % (" (wrapped documents: at most 2 kinds; no aliases)" if c.quick else " x {no alias, aliases}", len(cases)))
+                     "distinct by the case tuple" % (" (quick: forward order only, wrapped documents hold one kind, no aliases)" if c.quick else " x {no alias, aliases}", len(cases)))
     for o in [x for x in obs if x["s"] == "Disabled" and "_service" in x["kinds"]][:1] + [x for x in obs if x["r"] == "IntrospectionOnly" and x["op"] == "subscription"][:1] + obs[:1]:
         c.sample({"s": o["s"], "r": o["r"], "flavour": o["flavour"], "via": o["via"], "text": o["text"], "resps": [r["data"] for r in o["obs"]["resps"]][:2],
                   "log": o["obs"]["log"], "verdict": verdicts[o["id"]][0]})
